@@ -879,6 +879,7 @@ Proof.
   - destruct (hostport_never_panics (rq_remote r)) as [[h p] ->]. eexists; reflexivity.
   - destruct (hostport_never_panics (rq_remote r)) as [[h p] ->]. eexists; reflexivity.
   - destruct (e_requrl e); eexists; reflexivity.
+  - unfold request_host, with_req. destruct (e_requrl e); [|destruct (e_req e)]; eexists; reflexivity.
   - destruct (e_requrl e); eexists; reflexivity.
   - destruct (e_requrl e); eexists; reflexivity.
   - cbn [snd]. apply atoi_ok; [exact Hcl | lia].
@@ -938,7 +939,7 @@ Proof. split; vm_compute; reflexivity. Qed.
 Theorem render_zone_independent f e off : render_field f (in_zone e off) = render_field f e.
 Proof.
   destruct f;
-    unfold render_field, render_field_with, with_req, with_url, with_resp, resp_time, e_civil, e_unixnano, in_zone;
+    unfold render_field, render_field_with, request_host, with_req, with_url, with_resp, resp_time, e_civil, e_unixnano, in_zone;
     cbn [e_dur e_unix e_nsec e_off e_req e_resp e_requrl e_upaddr e_upsvc e_upurl]; reflexivity.
 Qed.
 
